@@ -214,8 +214,25 @@ pub fn handle(parts: &[&str], out: &mut impl Write) {
                 match parse_events(parts[3]) {
                     None => writeln!(out, "bad-events").unwrap(),
                     Some(evs) => {
+                        let nested = evs.iter().any(|e| matches!(e, Ev::Fail(_)));
                         let r = crate::guard(|| AsepriteFile::read(SchedReader::new(bytes, evs)));
-                        print_result(out, r, len);
+                        // the reader's own error (with its payload) must be the one carried as source
+                        let lost = match &r {
+                            Some(Err(e @ asefile::AsepriteParseError::IoError(_))) if nested => {
+                                let payload_ok = std::error::Error::source(e)
+                                    .and_then(|s| s.downcast_ref::<io::Error>())
+                                    .and_then(|ioe| ioe.get_ref())
+                                    .map(|p| p.is::<Transport>())
+                                    .unwrap_or(false);
+                                !payload_ok
+                            }
+                            _ => false,
+                        };
+                        if lost {
+                            writeln!(out, "load err io:reader-error-replaced (the IoError does not carry the reader's error value)").unwrap();
+                        } else {
+                            print_result(out, r, len);
+                        }
                     }
                 }
             }
